@@ -1,6 +1,6 @@
 SPECIFICATION Spec
 CONSTANTS
-  Wide = FALSE
+  Wide = TRUE
 INVARIANT InvIdentities
 INVARIANT InvBcReduce
 INVARIANT InvSym
